@@ -231,6 +231,126 @@ let gen (line : string) : string =
   end;
   Printf.sprintf "W=%d;L=%d;K=%s;ops=%s" w l ks (String.concat " " (List.rev !out))
 
+
+(* ---------- end-to-end scenarios through the real ServerBuilder (mode bld / bldgen) ----------
+   case "W=2;L=1;B=l,b2,u,v;ops=c0 c1 f1 P R E0 +600[;exp=...]"
+     B: the builder chain — l = listen (TCP), b<k> = bind resolving to k addresses, u = bind_uds, v = listen_uds;
+        tokens, socket kinds and the service a worker calls for a token come from the extracted Model/Builder.v
+     ops: c<tok> a client connects (ids 1,2,..), f<cid> client cid closes (its service call ends), P / R pause / resume,
+          E<tok> a client connects while accept() fails with EMFILE (one-shot), +<ms> time passes
+   After every op the model settles: Turn, every worker picks up its queue, repeated; printed per op:
+     <op>=<cid>@<call>w<worker idx>,...  (connections whose service call started during the op)  /a<in progress per worker index, '.'-separated> *)
+let fields_of line = List.map (fun kv -> match String.index_opt kv '=' with
+    | Some i -> (String.sub kv 0 i, String.sub kv (i + 1) (String.length kv - i - 1))
+    | None -> (kv, "")) (String.split_on_char ';' line)
+
+let parse_chain (s : string) : call list =
+  List.map (fun it -> match it.[0] with
+    | 'l' -> Listen true
+    | 'b' -> Bind (nat_of_int (int_of_string (String.sub it 1 (String.length it - 1))), None)
+    | 'u' -> BindUds true
+    | 'v' -> ListenUds true
+    | _ -> failwith ("bad builder item " ^ it)) (split_on ',' s)
+
+let bld_setup fields =
+  let w = int_of_string (List.assoc "W" fields) and l = int_of_string (List.assoc "L" fields) in
+  let b = match build O (parse_chain (List.assoc "B" fields)) empty0 with Some b -> b | None -> failwith "builder chain fails" in
+  let kinds = List.map (fun s -> s.s_kind = KUds) b.b_sockets in
+  let svcs = match worker_services b with Some s -> s | None -> failwith "token assertion fires" in
+  let call_of tok = match service_for svcs tok with Some s -> int_of_nat s.ws_call | None -> -1 in
+  (w, l, kinds, call_of)
+
+let bld_settle lz st =
+  let st = ref st in
+  for _ = 1 to 4 do
+    st := step lz !st (Turn []);
+    List.iteri (fun g _ ->
+      let continue = ref true in
+      while !continue do
+        match nth_error !st.ws (nat_of_int g) with
+        | Some wk when wk.w_open && wk.w_queue <> [] -> st := step lz !st (E (Pick (nat_of_int g)))
+        | _ -> continue := false
+      done) !st.ws
+  done;
+  !st
+
+let bld_step lz call_of (st, cid) (o : string) : (state * int) * string =
+  let nev = List.length st.trace in
+  let rest () = String.sub o 1 (String.length o - 1) in
+  let st', cid' = match o.[0] with
+    | 'c' -> (step lz st (E (Connect (nat_of_int (int_of_string (rest ())), n_of_int (cid + 1)))), cid + 1)
+    | 'E' -> let t = nat_of_int (int_of_string (rest ())) in
+        (step lz (step lz st (E (Inject (t, EOther)))) (E (Connect (t, n_of_int (cid + 1)))), cid + 1)
+    | 'f' -> let c = n_of_int (int_of_string (rest ())) in
+        let g = ref (-1) in
+        List.iteri (fun i wk -> if List.exists (fun cn -> cn.c_id = c) wk.w_picked then g := i) st.ws;
+        if !g < 0 then failwith ("finish of a connection that is not in progress: " ^ o);
+        (step lz st (E (Finish (nat_of_int !g, c))), cid)
+    | 'P' -> (step lz st (E (Command CPause)), cid)
+    | 'R' -> (step lz st (E (Command CResume)), cid)
+    | '+' -> (step lz st (Advance (n_of_int (int_of_string (rest ())))), cid)
+    | _ -> failwith ("bad scenario op " ^ o) in
+  let st' = bld_settle lz st' in
+  let evs = take (List.length st'.trace - nev) st'.trace in
+  let served = List.filter_map (function
+    | EvDispatch (c, tok, _, idx, _) -> Some (int_of_n c, call_of tok, int_of_n idx)
+    | _ -> None) evs in
+  let served = List.sort compare served in
+  let nw = List.fold_left (fun m wk -> max m (int_of_n wk.w_idx + 1)) 0 st'.ws in
+  let act = List.init nw (fun i -> List.fold_left (fun a wk ->
+    if int_of_n wk.w_idx = i then a + List.length wk.w_queue + List.length wk.w_picked else a) 0 st'.ws) in
+  ((st', cid'), Printf.sprintf "%s=%s/a%s" o
+     (String.concat "," (List.map (fun (c, cl, i) -> Printf.sprintf "%d@%dw%d" c cl i) served))
+     (String.concat "." (List.map string_of_int act)))
+
+let bld (line : string) : string =
+  let fields = fields_of line in
+  let (w, l, kinds, call_of) = bld_setup fields in
+  let lz = z_of_int l in
+  let ops = List.filter (fun s -> s <> "") (String.split_on_char ' ' (List.assoc "ops" fields)) in
+  let st0 = init (nat_of_int w) kinds in
+  let (_, outs) = List.fold_left (fun (acc, outs) o ->
+    let (acc', s) = bld_step lz call_of acc o in (acc', s :: outs)) ((st0, 0), []) ops in
+  String.concat " ; " (List.rev outs)
+
+(* model-guided scenario generator: "seed=..;W=..;L=..;B=..;len=..;flags=<c pause/resume, i EMFILE>" *)
+let bldgen (line : string) : string =
+  let fields = fields_of line in
+  let geti k = int_of_string (List.assoc k fields) in
+  rng := (geti "seed") * 7919 + 17;
+  for _ = 1 to 5 do ignore (next_rand ()) done;
+  let (w, l, kinds, call_of) = bld_setup fields in
+  let lz = z_of_int l in
+  let flags = List.assoc "flags" fields in
+  let has c = String.contains flags c in
+  let nl = List.length kinds in
+  let acc = ref (init (nat_of_int w) kinds, 0) in
+  let out = ref [] in
+  let emit o = let (a, _) = bld_step lz call_of !acc o in acc := a; out := o :: !out in
+  for _ = 1 to geti "len" do
+    let st = fst !acc in
+    let picked = List.concat_map (fun wk -> List.map (fun cn -> int_of_n cn.c_id) wk.w_picked) st.ws in
+    let backoff = List.exists (fun ls -> ls.l_to <> None) st.lsts in
+    let c = ref [] in
+    let add wgt o = for _ = 1 to wgt do c := o :: !c done in
+    add 6 `C;
+    if picked <> [] then add 5 `F;
+    if has 'c' then (if st.paused then add 4 `R else add 1 `P; if rand 8 = 0 then add 1 (if st.paused then `P else `R));
+    if has 'i' && not backoff && not st.paused && available st.av then add 1 `E;
+    if backoff then add 4 `T;
+    (* real time passes between the ops of the implementation run: the 500 ms back-off is left at once *)
+    (match (if backoff then `T else pick_from !c) with
+     | `C -> emit (Printf.sprintf "c%d" (rand nl))
+     | `F -> emit (Printf.sprintf "f%d" (pick_from picked))
+     | `P -> emit "P" | `R -> emit "R"
+     | `E -> emit (Printf.sprintf "E%d" (rand nl))
+     | `T -> emit "+600")
+  done;
+  let st = fst !acc in
+  if List.exists (fun ls -> ls.l_to <> None) st.lsts then emit "+600";
+  if (fst !acc).paused then emit "R";
+  Printf.sprintf "W=%d;L=%d;B=%s;S=%s;ops=%s" w l (List.assoc "B" fields) (try List.assoc "S" fields with Not_found -> "a") (String.concat " " (List.rev !out))
+
 (* ---------- breadth-first enumeration of the model's own state space ----------
    request "W=..;L=..;K=..;depth=<d>;max=<n>;flags=<k|c|i|d>": explores the states reachable by scripts of at most d
    operations (no yield schedules) and prints ONE script per newly found (state, operation) transition, so that every
@@ -305,7 +425,7 @@ let bfs (line : string) : unit =
 let () =
   if Sys.argv.(1) = "bfs" then begin (try while true do bfs (input_line stdin) done with End_of_file -> ()); exit 0 end;
   let f = match Sys.argv.(1) with
-    | "srv" -> srv | "avail" -> avail | "gen" -> gen
+    | "srv" -> srv | "avail" -> avail | "gen" -> gen | "bld" -> bld | "bldgen" -> bldgen
     | m -> failwith ("unknown mode " ^ m) in
   try while true do
     let line = input_line stdin in
